@@ -104,3 +104,85 @@ def dry_run(root_rm, request: List, context: Any = None) -> Tuple[bool, str, int
             depth += 1
             continue
         return (True, "leaf", depth, None)
+
+
+# ---------------------------------------------------------------------------------------------------------------------
+# Ground-truth reading of the permission rules: what each rule is documented to test, evaluated on the raw fields of the
+# component the rule guards (never by calling the validator). Unknown validator classes fall back to the validator itself
+# and are counted, so that a new rule cannot silently weaken the reference.
+UNKNOWN_VALIDATORS: Dict[str, int] = {}
+
+
+def _live(container, name):
+    for x in container.values():
+        if x.name == name:
+            return x
+    return None
+
+
+def truth(v, opts: List, context: Any) -> bool:
+    qn = type(v).__qualname__
+    if qn == "AllowAllValidator":
+        return True
+    if qn == "_CombinedValidator":
+        return all(truth(x, opts, context) for x in v.validators)
+    if qn == "Node._NodeIsOnValidator":
+        return v.node.operating_state.name == "ON"
+    if qn == "Node._NodeIsOffValidator":
+        return v.node.operating_state.name == "OFF"
+    if qn == "NetworkInterface._EnabledValidator":
+        return bool(v.network_interface.enabled)
+    if qn == "NetworkInterface._DisabledValidator":
+        return not v.network_interface.enabled
+    if qn == "Service._StateValidator":
+        return v.service.operating_state.name == v.state.name
+    if qn == "Application._StateValidator":
+        return v.application.operating_state.name == v.state.name
+    if qn == "FileSystem._FolderExistsValidator":
+        return _live(v.file_system.folders, opts[0]) is not None
+    if qn == "FileSystem._FolderNotDeletedValidator":
+        f = _live(v.file_system.folders, opts[0])
+        return f is not None and not f.deleted
+    if qn == "FileSystem._FileExistsValidator":
+        f = _live(v.file_system.folders, opts[0])
+        return f is not None and _live(f.files, opts[1]) is not None
+    if qn == "Folder._FileExistsValidator":
+        return _live(v.folder.files, opts[0]) is not None
+    if qn == "Folder._FileNotDeletedValidator":
+        f = _live(v.folder.files, opts[0])
+        return f is not None and not f.deleted
+    UNKNOWN_VALIDATORS[qn] = UNKNOWN_VALIDATORS.get(qn, 0) + 1
+    return bool(v(opts, context))
+
+
+def truth_run(root_rm, request: List, context: Any = None) -> Tuple[bool, str, int, Optional[str]]:
+    """Like dry_run, but every rule on the path is judged by `truth` (raw component state), not by the validator."""
+    from primaite.simulator.core import RequestManager
+
+    rm = root_rm
+    rest = list(request)
+    depth = 0
+    while True:
+        if not rest:
+            return (False, "empty", depth, None)
+        key = rest[0]
+        if key not in rm.request_types:
+            return (False, "keymiss", depth, str(key))
+        rt = rm.request_types[key]
+        opts = rest[1:]
+        try:
+            ok = truth(rt.validator, opts, context)
+        except IndexError:
+            return (False, "arity", depth, type(rt.validator).__qualname__)
+        if not ok:
+            return (False, "refused", depth, type(rt.validator).__qualname__)
+        nxt = None
+        if isinstance(rt.func, RequestManager):
+            nxt = rt.func
+        else:
+            owner = getattr(rt.func, "__self__", None)
+            if getattr(rt.func, "__name__", "") == "apply_request" and isinstance(getattr(owner, "_request_manager", None), RequestManager):
+                nxt = owner._request_manager
+        if nxt is None:
+            return (True, "leaf", depth, None)
+        rm, rest, depth = nxt, opts, depth + 1
